@@ -206,7 +206,8 @@ pub struct Scenario<'v> {
 pub fn run_scenario(sc: &Scenario<'_>, tr: &mut Trace) -> End {
     sim::clock_reset();
     let net = sim::new_net();
-    let crypto = test_only_crypto();
+    // the signer of this world is not deterministic: signing the same data again gives other signature bytes
+    let crypto = crate::randsig::RandSig::new(test_only_crypto());
     let dev = Matter::new(&TEST_DEV_DET, TEST_DEV_COMM, &TEST_DEV_ATT, 5540);
     let inis = [
         Matter::new(&TEST_DEV_DET, TEST_DEV_COMM, &TEST_DEV_ATT, 5540),
